@@ -1,6 +1,6 @@
 SPECIFICATION Spec
 CONSTANTS
-  N = 8
+  N = 7
   KMax = 3
   Variant = "code"
   EmitOps = TRUE
